@@ -576,7 +576,7 @@ func (e *Engine) mk(vd *VD, addr atree.Address, limit uint32, depth int) (atree.
 		}
 		return v, m, nil
 	case "arr":
-		n := &Node{ID: e.nextNode, Addr: addr, TI: TI{N: vd.N % 5}}
+		n := &Node{ID: e.nextNode, Addr: addr, TI: TI{N: vd.N % 48}}
 		e.nextNode++
 		a, err := atree.NewArray(e.St, addr, n.TI)
 		if err != nil {
@@ -601,7 +601,7 @@ func (e *Engine) mk(vd *VD, addr atree.Address, limit uint32, depth int) (atree.
 		return a, n, nil
 	case "barr":
 		// an array built with the bulk constructor from a stream of mixed sizes (then used like any other value)
-		n := &Node{ID: e.nextNode, Addr: addr, TI: TI{N: vd.N % 5}}
+		n := &Node{ID: e.nextNode, Addr: addr, TI: TI{N: vd.N % 48}}
 		e.nextNode++
 		i := 0
 		cls := []int{0, 8, 3, 4, 8, 7, 8, 2, 8, 8, 8, 3}
@@ -643,7 +643,7 @@ func (e *Engine) mk(vd *VD, addr atree.Address, limit uint32, depth int) (atree.
 			e.Stats.Add("excluded_known_F4", 1)
 			return e.mk(&c, addr, limit, depth)
 		}
-		n := &Node{ID: e.nextNode, Addr: addr, IsMap: true, TI: TI{N: vd.N % 5, Comp: vd.K == "cmap"}, Ents: map[string]*Ent{}, Ins: map[string]int{}}
+		n := &Node{ID: e.nextNode, Addr: addr, IsMap: true, TI: TI{N: vd.N % 48, Comp: vd.K == "cmap"}, Ents: map[string]*Ent{}, Ins: map[string]int{}}
 		e.nextNode++
 		m, err := atree.NewMap(e.St, addr, atree.NewDefaultDigesterBuilder(), n.TI)
 		if err != nil {
